@@ -2,7 +2,7 @@
 import itertools
 
 from vrt import glue
-from vrt.ob import define
+from vrt.ob import define, concretize
 import cpppo
 
 glue.activate(cpppo.automata, cpppo.dotdict)
@@ -190,10 +190,10 @@ def add_group(name, exprs, tier, nbytes, timeout):
 
 def check(group, which, bs, n, cut):
     ms = GROUPS[group]
-    r, s, M = ms[which % len(ms)]
-    bs = bs[:0] if n == 0 else bs[:1] if n == 1 else bs[:2] if n == 2 else bs[:3] if n == 3 else bs[:4] if n == 4 else bs[:5]
+    r, s, M = ms[concretize(which, len(ms))]
+    bs = bs[:concretize(n, len(bs) + 1)]
     exp_n, exp_ok = oracle(r, bs)
-    cut = cut % (len(bs) + 1)
+    cut = concretize(cut, len(bs) + 1)
     chunks = [bs[cut:]]
     src = cpppo.chainable(bs[:cut])
     data = cpppo.dotdict()
